@@ -200,6 +200,28 @@ theorem format_width (t : Text) (h : Canon t) (fa : Option (Option Char × Align
   rw [format_cells t h sp hv]
   simp only [FmtSpec.widthVal, sp, h3]
 
+/-- the fill character is *any* character — a newline or another line separator, `{`, `}`, a digit
+(also `0`: with an explicit align it is a fill, not the zero flag), one of the align characters
+themselves, a character outside the BMP: `format(x, f + align + str(w) [+ "s"])` for a text and for a
+chunk (`Chunk.__format__`) pads the cells to `w` with default-coloured `f`. The spec string is written
+out here (no `FmtSpec` in the statement) -/
+theorem format_fill (t : Text) (h : Canon t) (c : Chunk) (f : Char) (a : Align) (w : Nat) (hw : 0 < w) (s : Bool) :
+    let spec := [f, a.char] ++ Nat.toDigits 10 w ++ (if s then ['s'] else [])
+    pyFormat (.text t) spec = .ok (pyPad (f, 0) a w t.cells) ∧
+    pyFormat (.chunk c) spec = .ok (pyPad (f, 0) a w c.cells) := by
+  intro spec
+  have hspec : spec = (FmtSpec.mk (some (some f, a)) (Nat.toDigits 10 w) s).render := by
+    simp [spec, FmtSpec.render, FmtSpec.pre]
+  refine ⟨?_, ?_⟩
+  · simp only [pyFormat]
+    rw [hspec]
+    exact (format_width t h (some (some f, a)) w hw s).2
+  · simp only [pyFormat]
+    rw [hspec]
+    have := (format_width (construct [.chunk c]) (construct_canon _) (some (some f, a)) w hw s).2
+    rw [this, CHText.construct_cells]
+    simp [Part.cellsList, Part.cells, FmtSpec.fill, FmtSpec.align]
+
 /-- iteration (`list(text)`, `for ch in text`: Python's sequence protocol over `__getitem__`) yields
 the one-character texts of the cells, in order, and terminates -/
 theorem iter_cells (t : Text) (h : Canon t) :
@@ -477,5 +499,22 @@ example : (FmtSpec.mk (some (some '*', .center)) ['7'] false).Valid := by
 example : (FmtSpec.mk (some (some '*', .center)) ['7'] false).render = "*^7".toList := by decide +kernel
 example : (construct [.chunk ⟨1, ['a', 'b']⟩, .str ['c']]).format "*^7".toList
     = .ok [('*', 0), ('*', 0), ('a', 1), ('b', 1), ('c', 0), ('*', 0), ('*', 0)] := by decide +kernel
+
+/-- fills of every kind: newline, `{`, `0` with an explicit align, an align character, U+1F600 -/
+example : (construct [.chunk ⟨1, ['a', 'b']⟩, .str ['c']]).format ['\n', '>', '5']
+    = .ok [('\n', 0), ('\n', 0), ('a', 1), ('b', 1), ('c', 0)] := by decide +kernel
+example : pyFormat (.chunk ⟨1, ['a', 'b']⟩) "{^5".toList
+    = .ok [('{', 0), ('a', 1), ('b', 1), ('{', 0), ('{', 0)] := by decide +kernel
+example : pyFormat (.chunk ⟨1, ['a', 'b']⟩) "0<4s".toList
+    = .ok [('a', 1), ('b', 1), ('0', 0), ('0', 0)] := by decide +kernel
+example : pyFormat (.chunk ⟨1, ['a', 'b']⟩) "<>10".toList
+    = .ok ((List.replicate 8 ('<', 0)) ++ [('a', 1), ('b', 1)]) := by decide +kernel
+example : pyFormat (.chunk ⟨1, ['a', 'b']⟩) [Char.ofNat 0x1F600, '<', '3']
+    = .ok [('a', 1), ('b', 1), (Char.ofNat 0x1F600, 0)] := by decide +kernel
+/-- OUTSIDE the property (zero flag, precision): the model follows the code, which does not do what `str` does -
+`format(text, "05")` pads with blanks (`str`: with zeros), `".2"` is a ValueError (`str`: truncates) -/
+example : pyFormat (.chunk ⟨1, ['a', 'b']⟩) "05".toList
+    = .ok [('a', 1), ('b', 1), (' ', 0), (' ', 0), (' ', 0)] := by decide +kernel
+example : pyFormat (.chunk ⟨1, ['a', 'b']⟩) ".2".toList = .error (.py .valueError) := by decide +kernel
 
 end C08
